@@ -7,7 +7,8 @@ E1, bounded exhaustive.  Five families of cases, all driving the real functions 
              x stddev/scale/normalisation options, one prediction at a time (1 x 1 calls).  For one
              ground truth and one option the values for ALL predicted poses form a table; the
              relations of the property are evaluated between entries of that table:
-               range [0,1] / identical => 1 / constant along a node missing in the ground truth /
+               range [0,1] / identical => 1 / constant along a node missing in the ground truth (its
+               predicted position and its stddev are both irrelevant) /
                prediction NaN == prediction very far away / non-increasing in the distance of one
                predicted node / unchanged by translating both poses
   oks_matrix n_gt x n_pr calls: shape, every entry equal to its own 1 x 1 call, matrix permuted
@@ -47,7 +48,7 @@ RULE = (
 ASSUMPTIONS = [
     "coordinates come from the alphabet {NaN, 0, 1, 3, 10} (a node is either missing = NaN in both coordinates, or a grid point; "
     "half-NaN nodes are outside the alphabet), plus one very far predicted point (1e6, 1e6); 2-D points only",
-    "n_nodes <= 2 over the full 17-value node alphabet, n_nodes = 3 over a 5-value (quick) / 5- and 7-value (thorough) node alphabet",
+    "n_nodes <= 2 over the full 17-value node alphabet, n_nodes = 3 over a 5-value (quick) / a 5- and a 6-value (thorough) node alphabet",
     "every ground-truth pose has >= 1 visible node (with none, OKS is 0/0 and the statement has no subject)",
     "stddev in {default 0.025, scalar 0.5, per-node vector}, scale in {None (bounding-box area), scalar 4, per-gt vector}, "
     "both normalisations; quick uses a fixed covering subset of 6 of the 18 combinations, thorough all 18",
@@ -71,7 +72,7 @@ GRID4 = [(float(x), float(y)) for x in (0, 1, 3, 10) for y in (0, 1, 3, 10)]
 ALPH = {
     "node17": [NANPT] + GRID4,
     "node5": [NANPT, (0.0, 0.0), (1.0, 0.0), (0.0, 3.0), (10.0, 10.0)],
-    "node7": [NANPT, (0.0, 0.0), (1.0, 0.0), (0.0, 1.0), (3.0, 3.0), (10.0, 0.0), (3.0, 10.0)],
+    "node6": [NANPT, (0.0, 0.0), (1.0, 0.0), (0.0, 1.0), (3.0, 3.0), (3.0, 10.0)],
     "mat3": [NANPT, (0.0, 0.0), (3.0, 1.0)],
     "mat4": [NANPT, (0.0, 0.0), (1.0, 0.0), (3.0, 10.0)],
 }
@@ -169,7 +170,7 @@ def eval_oks(case):
     rel = case["rel"]
     obs = {}
 
-    def one(g, p, name):
+    def one(g, p, name, kw=kw):
         try:
             r = oks_call(g, p, kw)
         except Exception as e:
@@ -197,6 +198,16 @@ def eval_oks(case):
             return err, obs
         if not abs(v1 - v2) <= TOL_INV:
             return f"translating both poses by {case['shift']} changes OKS from {fmt(v1)} to {fmt(v2)}", obs
+        return None, obs
+    if rel == "missing_gt_stddev":
+        v2, err = one(gt, pr, "oks_other_stddev", opt_kwargs(case["opt2"]))
+        if err:
+            return err, obs
+        if not abs(v1 - v2) <= TOL:
+            return (
+                f"changing stddev only at nodes missing in the ground truth ({case['opt']['stddev']} -> {case['opt2']['stddev']}) "
+                f"changes OKS from {fmt(v1)} to {fmt(v2)}"
+            ), obs
         return None, obs
     pr2 = arr(case["pr2"])[None]
     v2, err = one(gt, pr2, "oks2")
@@ -383,6 +394,19 @@ def work_oks(part, shard):
                         upd = gm > far_max
                         far_arg = np.where(upd, ga, far_arg)
                         far_max = np.where(upd, gm, far_max)
+            # the stddev of a node missing in the ground truth is irrelevant
+            if isinstance(opt["stddev"], list) and not all(vis):
+                opt2 = dict(opt, stddev=[sd if v else 3.0 * sd for sd, v in zip(opt["stddev"], vis)])
+
+                def mk2(j, rel="call"):
+                    return dict(mk(j, rel), opt=opt2) if rel == "call" else dict(mk(j, rel), opt2=opt2)
+
+                T2, ok2 = _table(part, gt1, PR, opt_kwargs(opt2), mk2)
+                both = fin & ok2 & np.isfinite(T2)
+                nrel += int(both.sum())
+                w = np.flatnonzero(both & ~(np.abs(T2 - T) <= TOL))
+                if len(w):
+                    _report(part, mk2(int(w[0]), "missing_gt_stddev"))
             # translation
             for sh in shifts:
                 sha = np.array(sh)
@@ -995,7 +1019,7 @@ def run(ctx):
             shards.append(("helpers", s))
 
         # ---- area
-        area_items = [("node17", 1), ("node17", 2), ("node5", 3)] + ([("node7", 3)] if thorough else [])
+        area_items = [("node17", 1), ("node17", 2), ("node5", 3)] + ([("node6", 3)] if thorough else [])
         shards.append(("area", area_items))
 
         # ---- match_instances
@@ -1020,16 +1044,17 @@ def run(ctx):
 
         # ---- oks (1x1 tables)
         shifts = SHIFTS if thorough else SHIFTS[:1]
-        tables = [("node17", 1), ("node17", 2), ("node5", 3)] + ([("node7", 3)] if thorough else [])
+        tables = [("node17", 1), ("node17", 2), ("node5", 3)] + ([("node6", 3)] if thorough else [])
         items = []
         for aname, n in tables:
             opts = options(n, 1, tier)
+            sh = shifts if n <= 2 else shifts[:1]
             for gi in _valid_gt_indices(aname, n):
-                items.append((aname, n, gi, opts, shifts))
+                items.append((aname, n, gi, opts, sh))
         ctx.bounds["oks"] = {
             "tables": [{"alphabet": ALPH[a], "n_nodes": n, "predictions_also": [FAR]} for a, n in tables],
             "options_per_table": len(options(1, 1, tier)),
-            "shifts": shifts,
+            "shifts": {"n_nodes<=2": shifts, "n_nodes=3": shifts[:1]},
         }
         for s in core.shard_list(core.rotate(items, ctx.seed), 96 if thorough else 64):
             shards.append(("oks", s))
